@@ -18,7 +18,7 @@ from .c07_storage import LAYOUT, kconfig_text
 
 NAMES = [("nordicsemi.com", "nRF54H20_sample_app"), ("ACME Corp", "Light bulb v2"), ("", ""), ("a", ""), ("", "b"),
          ("zażółć.example", "gęślą-jaźń"), ("日本語", "クラス"), ("v" * 300, "c" * 300), ("key=value", "a = b"),
-         (" leading", "trailing "), ("UPPER.example", "upper.example"), ("y", "n"), ("0x10", "123"), ("#hash", "semi;colon")]
+         (" leading", "trailing "), ("\ttab", "nbsp\u00a0"), ("  ", " "), ("UPPER.example", "upper.example"), ("y", "n"), ("0x10", "123"), ("#hash", "semi;colon")]
 OBS_NAMES = [('quo"te', 'back\\slash')]
 PAIRS = {"dRoot": ("nordicsemi.com", "nRF54H20_sample_root"), "dApp": ("nordicsemi.com", "nRF54H20_sample_app"),
          "dRad": ("nordicsemi.com", "nRF54H20_sample_rad"), "cA": ("ACME Corp", "acme app"),
@@ -148,7 +148,10 @@ def run(ctx: core.Check):
     for (v, c) in NAMES + ([] if ctx.quick else [(f"vendor{i}.example", f"class {i}") for i in range(60)]):
         for role in (ROLES if not ctx.quick else [ROLES[k % 11], ROLES[(k + 5) % 11]]):
             k += 1
-            via = "cli" if k % 9 == 0 and v.strip() == v and v else "lib"
+            # names that begin / end with white space, empty names and names made of white space go through the COMMAND LINE too
+            # (a name is the whole string: the three derivations must hash the same bytes whatever the entry point)
+            special = v != v.strip() or c != c.strip() or not v or not c
+            via = "cli" if (k % 9 == 0 or (special and k % 2 == 0)) and not v.startswith("-") and not c.startswith("-") else "lib"
             envf, data = make_env(d, k, v, c)
             vid, cid, comp = manifest_ids(data)
             mv, mc = mpi_ids(ctx, d, v, c, via)
